@@ -160,6 +160,8 @@ def run(chk):
     chk.coverage["max_roundings_to_plus_from"] = kmax
     chk.coverage["implied_ulp_bound"] = kmax
     chk.coverage["rigorous_ulp_bound_per_direction"] = {k: round(v, 3) for k, v in ulp_max.items()}
+    if n_r4b[0] and not any(o["rule"] == "R4c" for o in chk.obs):
+        chk.holds("R4c", "all multiplicative directions", "%d value paths examined: no intermediate leaves the range between input and result" % n_r4b[0], "")
     chk.holds("R4b", "all multiplicative directions", "%d directions bounded; worst %s ulp" % (n_r4b[0], {k: round(v, 2) for k, v in ulp_max.items()}), "") if n_r4b[0] else None
 
 
